@@ -3,7 +3,8 @@
   Full strength ("never left behind") does NOT hold on the unchanged code (finding F1): see
   `failure_callback_fails_when_take_back_is_rejected`.
 -/
-import Axelar.Proofs.ItsMonad
+import Axelar.Proofs.ItsLock
+import Axelar.Proofs.GwHistory
 namespace Axelar.Props.C08
 open Axelar Axelar.ItsW Axelar.Its Codec
 
@@ -75,6 +76,136 @@ theorem failure_callback_success_partial (C : Crypto) (cx : ICtx) (sc mid sa ph 
     simp only [ht, run_emit, Option.some.injEq, Prod.mk.injEq, true_and] at h
     subst h
     exact ⟨t1, rfl, rfl⟩
+
+
+/-! ### Single shot, over every schedule -/
+
+/-- **Starting a delivery** (step 1) needs the gateway approval for exactly these fields (read,
+    not consumed), an unlocked message, and sets the lock. -/
+theorem start_needs_approval_and_sets_the_lock (C : Crypto) (cx : ICtx) (dest oc sc mid sa ph osa data tid : Bytes)
+    (amount : Nat) (t t' : Tx) (hk : t.w.kind t.w.its.gateway = some .gateway)
+    (h : executeWithToken C cx dest oc sc mid sa ph osa data tid amount t = some ((), t')) :
+    t.w.gw.messages (sc, mid) = .approved (Gateway.messageHash C sc mid sa cx.self ph) ∧
+    t.w.its.lock (sc, mid) = false ∧ t'.w.its.lock (sc, mid) = true := by
+  have hnl : t.w.its.lock (sc, mid) = false := by
+    cases hl : t.w.its.lock (sc, mid)
+    · rfl
+    · rw [locked_message_cannot_start C cx dest oc sc mid sa ph osa data tid amount t hl] at h; cases h
+  simp only [executeWithToken, run_bind] at h
+  cases h1 : gatewayIsApproved C cx sc mid sa ph t with
+  | none => simp [h1] at h
+  | some r1 =>
+    obtain ⟨ok, t1⟩ := r1
+    simp only [h1, run_require] at h
+    cases ok with
+    | false => simp at h
+    | true =>
+      simp only [if_true] at h
+      refine ⟨?_, hnl, ?_⟩
+      · -- the approval: `isMessageApproved` answered true
+        simp only [gatewayIsApproved, run_bind, run_getI] at h1
+        cases hs : subcall C cx t.w.its.gateway "isMessageApproved" 0 [] [sc, mid, sa, cx.self, ph] t with
+        | none => simp [hs] at h1
+        | some x =>
+          obtain ⟨rs, tt⟩ := x
+          simp only [hs, run_pure, Option.some.injEq, Prod.mk.injEq] at h1
+          obtain ⟨hrs, rfl⟩ := h1
+          have hrs' : rs = [encBool true] := by simpa using hrs
+          unfold subcall at hs
+          cases hp : World.pay t.w cx.self t.w.its.gateway 0 [] with
+          | none => simp [hp] at hs
+          | some w1 =>
+            simp only [hp] at hs
+            obtain ⟨g1, g2, _, _⟩ := World.pay_gw _ _ _ _ _ _ hp
+            cases hc : World.callOther C w1 cx.self t.w.its.gateway "isMessageApproved" 0 [] [sc, mid, sa, cx.self, ph] with
+            | none => simp [hc] at hs
+            | some rr =>
+              obtain ⟨w2, rs2, evs, pd⟩ := rr
+              simp only [hc, Option.some.injEq, Prod.mk.injEq] at hs
+              obtain ⟨rfl, rfl⟩ := hs
+              unfold World.callOther at hc
+              rw [g2, hk] at hc
+              simp only [ne_eq, not_true_eq_false, decide_false, List.isEmpty_nil, Bool.not_true, Bool.or_self,
+                Bool.false_eq_true, if_false] at hc
+              cases hg : Gateway.call C w1.gw ⟨cx.self, w1.owner t.w.its.gateway, w1.now⟩ "isMessageApproved" [sc, mid, sa, cx.self, ph] with
+              | error e => simp [hg] at hc
+              | ok v =>
+                obtain ⟨gw', rs3, evs3⟩ := v
+                simp only [hg, Option.some.injEq, Prod.mk.injEq] at hc
+                obtain ⟨_, rfl, _, _⟩ := hc
+                rw [← g1]
+                obtain ⟨_, hres⟩ := Gateway.isMessageApproved_call C _ _ _ _ _ _ _ _ _ _ hg
+                rw [hrs'] at hres
+                simp only [List.cons.injEq, and_true] at hres
+                cases hb : Gateway.isMessageApproved C w1.gw sc mid sa cx.self ph
+                · rw [hb] at hres; simp [encBool] at hres
+                · simpa [Gateway.isMessageApproved] using hb
+      · -- the lock
+        cases h2 : tmGiveToken C cx tid cx.self amount t1 with
+        | none => simp [h2] at h
+        | some r2 =>
+          obtain ⟨⟨tokRaw, amt⟩, t2⟩ := r2
+          simp only [h2, run_getI, run_require] at h
+          by_cases hl2 : (!t2.w.its.lock (sc, mid)) = true
+          · simp only [hl2, if_true, run_setI] at h
+            -- after `setI` only `addPend` follows, which keeps the service's storage
+            have hk2 : ∀ (tt : Tx) (m : M Unit) [Keeps m], m tt = some ((), t') → t'.w.its = tt.w.its :=
+              fun tt m inst hm => inst.h tt () t' hm
+            have := hk2 _ _ h
+            rw [this]; simp [upd]
+          · simp [hl2] at h
+
+/-- **The lock of a message in flight is never cleared by anything but the callback of that very
+    delivery** — every other operation of every schedule (transactions by anyone to any
+    contract, deliveries, other callbacks, environment moves) leaves it set; and while it is set
+    the same message cannot start another delivery (`locked_message_cannot_start`). -/
+theorem in_flight_lock_persists (C : Crypto) (w : World) (op : World.Op) (sc mid : Bytes)
+    (hl : w.its.lock (sc, mid) = true) :
+    (World.step C w op).its.lock (sc, mid) = true ∨
+    ∃ id p its sa ph tid tok amount, op = .callback id ∧ World.findPending w.pending id = some p ∧
+      p.result.isSome = true ∧ p.kind = .itsExecute its sc mid sa ph tid tok amount :=
+  World.step_lock C w op (sc, mid) hl
+
+/-- **A successful delivery ends with the message executed**: when the destination call
+    succeeded and the callback ran, the gateway entry is `Executed` — given only that it was the
+    approval (as step 1 found it) or already executed, which the life cycle guarantees for every
+    schedule in between (`GwHistory.run_life`). -/
+theorem success_callback_leaves_message_executed (C : Crypto) (cx : ICtx) (sc mid sa ph tid tokRaw : Bytes)
+    (amount : Nat) (t t' : Tx) (hk : t.w.kind t.w.its.gateway = some .gateway)
+    (hpre : t.w.gw.messages (sc, mid) = .approved (Gateway.messageHash C sc mid sa cx.self ph) ∨
+            t.w.gw.messages (sc, mid) = .executed)
+    (h : executeWithTokenCallback C cx sc mid sa ph tid tokRaw amount true t = some ((), t')) :
+    t'.w.gw.messages (sc, mid) = .executed ∧ t'.w.its.lock (sc, mid) = false := by
+  simp only [executeWithTokenCallback, run_bind, run_getI, run_setI, if_true] at h
+  cases hv : gatewayValidate C cx sc mid sa ph
+      { t with w := { t.w with its := { t.w.its with lock := upd t.w.its.lock (sc, mid) false } } } with
+  | none => simp [hv] at h
+  | some x =>
+    obtain ⟨b, t1⟩ := x
+    simp only [hv, run_emit, Option.some.injEq, Prod.mk.injEq, true_and] at h
+    subst h
+    have hits := gatewayValidate_keeps_its C cx sc mid sa ph _ t1 b hv
+    refine ⟨?_, by simp only [hits]; simp [upd]⟩
+    rcases hpre with ha | he
+    · exact (gatewayValidate_of_approved C cx sc mid sa ph
+        { t with w := { t.w with its := { t.w.its with lock := upd t.w.its.lock (sc, mid) false } } } t1 b hk ha hv).2
+    · exact ((gwl_gatewayValidate C cx sc mid sa ph).h _ b t1 hv (sc, mid)).1 he
+
+/-- … and an executed message can never start a delivery again, in any later state of any
+    history: **no schedule delivers the tokens twice.** -/
+theorem executed_message_cannot_start (C : Crypto) (w : World) (ops : List World.Op) (cx : ICtx)
+    (dest oc sc mid sa ph osa data tid : Bytes) (amount : Nat) (t : Tx)
+    (hex : w.gw.messages (sc, mid) = .executed) (ht : t.w.gw = (World.run C w ops).gw)
+    (hk : t.w.kind t.w.its.gateway = some .gateway) :
+    executeWithToken C cx dest oc sc mid sa ph osa data tid amount t = none := by
+  cases hr : executeWithToken C cx dest oc sc mid sa ph osa data tid amount t with
+  | none => rfl
+  | some x =>
+    obtain ⟨u, t'⟩ := x
+    have ha := (start_needs_approval_and_sets_the_lock C cx dest oc sc mid sa ph osa data tid amount t t' hk hr).1
+    have he : t.w.gw.messages (sc, mid) = .executed := by
+      rw [ht]; exact (World.run_life C ops w (sc, mid)).1 hex
+    rw [he] at ha; cases ha
 
 /-! ### Non-vacuity (test) -/
 example : (upd (fun (_ : Bytes × Bytes) => true) ([1], [2]) false) ([1], [2]) = false := by decide
